@@ -89,9 +89,12 @@ Example bk_unbond_is_pricing :
 Proof. vm_compute. auto. Qed.
 
 Example bk_unbond_restores_books w' tr :
-  bk_tx bk_ws bk_alice A_bsei (WCw20 (CSend A_hub 1000 HkUnbond)) [] = Some (w', tr) -> Books w'.
+  run tx_fuel bk_ws [(bk_alice, MWasm A_bsei (WCw20 (CSend A_hub 1000 HkUnbond)) [])] [] = Some (w', tr) ->
+  Books w'.
 Proof.
-  intros H. eapply token_send_tx_books; [apply bk_ws_entwf| | |exact H]; auto.
+  intros H.
+  exact (token_send_tx_books bk_ws bk_alice A_bsei 1000 HkUnbond [] w' tr bk_ws_entwf
+           (or_introl eq_refl) (or_introl eq_refl) H).
 Qed.
 
 (** the bond and the index update in [bk_w0] succeed; the bond leaves the liquid balance unchanged *)
@@ -101,13 +104,13 @@ Example bk_bond_ok :
 Proof. vm_compute. auto. Qed.
 
 Example bk_bond_liquid w' tr :
-  bk_tx bk_w0 bk_alice A_hub (WHub HBond) [(usei, 777)] = Some (w', tr) ->
+  run tx_fuel bk_w0 [(bk_alice, MWasm A_hub (WHub HBond) [(usei, 777)])] [] = Some (w', tr) ->
   bal (w_env w') A_hub usei = bal (w_env bk_w0) A_hub usei.
 Proof.
-  intros H. eapply bond_tx_liquid_unchanged; [left; reflexivity| | | |exact H].
-  - apply bk_underlying. auto.
-  - apply bk_w0_norewards.
-  - intros E. vm_compute in E. discriminate E.
+  intros H.
+  refine (bond_tx_liquid_unchanged bk_w0 bk_alice HBond [(usei, 777)] w' tr (or_introl eq_refl)
+            (bk_underlying bk_w0 (or_introl eq_refl)) bk_w0_norewards _ H).
+  intros E. vm_compute in E. discriminate E.
 Qed.
 
 (** the executed messages of an index update (with re-bonding of rewards), of a Convert and of a
